@@ -81,6 +81,16 @@ def check(ctx):
                            construct="%s/state/%s" % (fq, x.attr), msg="the framer %s self.%s: the dispatch sequence can depend on more than the "
                            "concatenated bytes" % ("writes" if isinstance(x.ctx, ast.Store) else "reads", x.attr))
         ctx.ob("F1", "%s framer state is the carry buffer only" % cq, True, nontrivial=False, where=w0, construct="%s/state" % framer_q)
+        # which idiom: (a) carry re-bound to its suffix after each packet, or (b) a local offset advanced per packet and one trim at the end
+        off_terms = set()
+        for bp in outer.a["body"]:
+            for e in bp.events:
+                if e.kind == "CALL" and e.a["recv"] == SELF and e.func == framer_q and e.a["args"] and isinstance(e.a["args"][0], tuple) \
+                        and e.a["args"][0][0] == "slice" and e.a["args"][0][1] == B and e.a["args"][0][2] != NONE:
+                    off_terms.add(e.a["args"][0][2])
+        if off_terms:
+            n_disp += offset_idiom(ctx, cls, cq, prog, p0, ent, outer, B, carry, framer_q, framer, cont, off_terms)
+            continue
         # scan variable initialised to 1 before the width scan
         scan_ok = False
         for x in ast.walk(framer.node):
@@ -197,3 +207,136 @@ def check(ctx):
                    msg="handlers called with %s" % [[show(y) for y in x.a["args"]] for x in inner_calls])
     ctx.count("dispatching_iterations", n_disp)
     ctx.floor("dispatching iteration paths", n_disp, 100)
+
+
+def offset_idiom(ctx, cls, cq, prog, p0, ent, outer, B, carry, framer_q, framer, cont, off_terms):
+    """Rules for the framer idiom that keeps a local offset into the carry and trims the carry once, after the loop."""
+    n = 0
+    w0 = "%s:%d" % (framer.file, framer.node.lineno)
+    lenB = ("call", ("builtin", "len"), (B,))
+    if len(off_terms) != 1 or not (isinstance(list(off_terms)[0], tuple) and list(off_terms)[0][0] == "unk"):
+        ctx.ob("F2", "%s dispatch starts at the framer's own offset" % cq, False, where=w0, function=framer_q, construct="%s/offset-term" % framer_q,
+               msg="packets are dispatched from %s" % [show(t) for t in off_terms])
+        return 0
+    lo = list(off_terms)[0]
+    name = lo[1].split("@")[0]
+    # B1: offset starts at 0
+    init0 = any(isinstance(x, ast.Assign) and len(x.targets) == 1 and isinstance(x.targets[0], ast.Name) and x.targets[0].id == name
+                and isinstance(x.value, ast.Constant) and x.value.value == 0 and x.lineno < outer.line for x in framer.node.body)
+    ctx.ob("F2", "%s the offset into the carry starts at 0" % cq, init0, where=w0, function=framer_q, construct="%s/offset-init" % framer_q,
+           msg="local `%s` is not initialised to 0 before the framing loop" % name)
+
+    def is_trim(e, offname):
+        if e.kind == "DELITEM" and e.a["base"] == B and isinstance(e.a["key"], tuple) and e.a["key"][0] == "slicekey" \
+                and e.a["key"][1] == NONE and e.a["key"][3] == NONE:
+            k = e.a["key"][2]
+            return isinstance(k, tuple) and k[0] == "unk" and k[1].split("@")[0] == offname
+        if e.kind == "SETATTR" and e.a["obj"] == SELF and e.a["field"] == carry and isinstance(e.a["val"], tuple) and e.a["val"][0] == "slice" \
+                and e.a["val"][1] == B and e.a["val"][3] == NONE:
+            k = e.a["val"][2]
+            return isinstance(k, tuple) and k[0] == "unk" and k[1].split("@")[0] == offname
+        return False
+    # the trim after the loop, on every path that leaves the loop normally
+    for p in ent.paths:
+        lps = [e for e in p.events if e.kind == "LOOP" and e.line == outer.line]
+        if not lps:
+            continue
+        i = p.events.index(lps[0])
+        tail = p.events[i + 1:]
+        if p.exit_kind() in ("fall", "return"):
+            # paths that left the function from inside the loop (empty tail, exit by return) are judged per iteration below
+            if tail or p.exit_kind() == "fall":
+                trims = [e for e in tail if is_trim(e, name)]
+                ctx.ob("F2", "%s the consumed prefix is removed from the carry once, after the loop" % cq, len(trims) == 1, where=where(lps[0]),
+                       function=framer_q, construct="%s/trim" % framer_q,
+                       msg="after the framing loop the carry is trimmed %d times by the offset (expected exactly once: carry[:offset] removed)" % len(trims))
+    for bp in outer.a["body"]:
+        evs = bp.events
+        D = None
+        for e in evs:
+            if e.kind == "CALL" and e.a["recv"] == SELF and e.func == framer_q and e.a["args"] and mentions(e.a["args"][0], B):
+                D = e
+                break
+        mods = [e for e in evs if e.func == framer_q and ((e.kind == "SETATTR" and e.a["obj"] == SELF) or (e.kind in ("MCALL", "DELITEM", "SETITEM")
+                and (e.a.get("obj") == B or e.a.get("base") == B)))]
+        end_off = bp.st.env.get(name) if bp.st is not None else None
+        if D is None:
+            trimmed = any(is_trim(e, name) for e in evs)
+            ctx.ob("F4", "%s a path that dispatches nothing leaves carry and offset alone" % cq, (not mods or trimmed) and end_off == lo,
+                   where=where(mods[0]) if mods else where(outer), function=framer_q, construct="%s/carry-modified-without-dispatch" % framer_q,
+                   msg="carry or offset changed on a path that dispatches no packet (offset %s -> %s)" % (show(lo), show(end_off)))
+            if bp.exit_kind() == "return":
+                ctx.ob("F4", "%s leaving the framer from inside the loop still removes what was dispatched" % cq, trimmed, where=where(outer),
+                       function=framer_q, construct="%s/exit-without-trim" % framer_q,
+                       msg="a `return` inside the framing loop leaves the function without trimming the carry: packets dispatched earlier in the same "
+                           "call stay in the buffer and are dispatched again by the next call (duplicated packets). Conditions: %s" % [repr(c) for c in bp.conds][-2:])
+            else:
+                ctx.ob("F6", "%s an iteration that dispatches nothing leaves the loop" % cq, bp.exit_kind() in ("break", "raise"), where=where(outer),
+                       function=framer_q, construct="%s/idle-iteration" % framer_q, msg="an iteration that consumes nothing continues the loop (exit=%s)" % bp.exit_kind())
+            continue
+        n += 1
+        sl = D.a["args"][0]
+        hi = sl[3]
+        ctx.ob("F2", "%s the dispatched packet is carry[offset:offset+E]" % cq, sl[0] == "slice" and sl[1] == B and sl[2] == lo and sl[4] == NONE and len(D.a["args"]) == 1,
+               where=where(D), function=framer_q, construct="%s/dispatch-slice" % framer_q, msg="dispatcher called with %s" % show(sl))
+        ctx.ob("F2", "%s the offset advances to the end of the dispatched packet, once" % cq, end_off == hi and not mods and bp.exit_kind() in ("fall", "continue"),
+               where=where(D), function=framer_q, construct="%s/consume" % framer_q,
+               msg="dispatched carry[%s:%s] but the offset becomes %s (carry modifications in the loop: %d)" % (show(lo), show(hi), show(end_off), len(mods)))
+        guard = False
+        for c in bp.conds:
+            t, pol = c.term, c.pol
+            while isinstance(t, tuple) and t and t[0] == "not":
+                t, pol = t[1], not pol
+            if isinstance(t, tuple) and t[0] == "cmp":
+                if t[2] == hi and t[3] == lenB and ((t[1] == ">" and not pol) or (t[1] == "<=" and pol)):
+                    guard = True
+                if t[3] == hi and t[2] == lenB and ((t[1] == "<" and not pol) or (t[1] == ">=" and pol)):
+                    guard = True
+        ctx.ob("F2", "%s dispatch only when the whole packet has arrived (offset+E <= len(carry))" % cq, guard, where=where(D), function=framer_q,
+               construct="%s/complete-guard" % framer_q, msg="no `end <= len(carry)` test dominates the dispatch: conditions %s" % [repr(c) for c in bp.conds][-3:])
+        ret = [e for e in evs if e.kind == "RET" and e.a["func"].endswith(".decodeLength")]
+        call = [e for e in evs if e.kind == "CALL" and e.a["func"].endswith(".decodeLength")]
+        src_ok = bool(call) and isinstance(call[0].a["args"][0], tuple) and call[0].a["args"][0][0] == "slice" and call[0].a["args"][0][1] == B \
+            and sorted(map(repr, leaves_of_sum(call[0].a["args"][0][2]))) == sorted(map(repr, [lo, ("const", 1)]))
+        ctx.ob("F3", "%s remaining length decoded from the carry starting at offset+1" % cq, src_ok, where=where(call[0]) if call else where(D), function=framer_q,
+               construct="%s/length-source" % framer_q, msg="decodeLength applied to %s" % ([show(x) for x in call[0].a["args"]] if call else None))
+        scan_vars, masks = set(), set()
+        allconds = list(bp.conds)
+        for lp in [e for e in evs if e.kind == "LOOP" and e.func == framer_q]:
+            for sb in lp.a["body"]:
+                allconds.extend(sb.conds)
+        for c in allconds:
+            for x in subterms(c.term):
+                if isinstance(x, tuple) and x[:2] == ("sub", B):
+                    for lf in leaves_of_sum(x[2]):
+                        if isinstance(lf, tuple) and lf[0] == "unk" and lf != lo:
+                            scan_vars.add(lf)
+                if isinstance(x, tuple) and x[0] == "binop" and x[1] == "BitAnd" and isinstance(x[2], tuple) and x[2][:2] == ("sub", B) and is_const(x[3]):
+                    masks.add(x[3][1])
+        leaves = leaves_of_sum(hi)
+        okE = len(leaves) == 4 and lo in leaves and ("const", 1) in leaves and bool(ret) and ret[0].a["val"] in leaves and any(v in leaves for v in scan_vars)
+        ctx.ob("F3", "%s end = offset + decoded length + width of the length field + 1" % cq, okE, where=where(D), function=framer_q,
+               construct="%s/extent" % framer_q, msg="end of the packet computed as %s" % show(hi))
+        ctx.ob("F3", "%s width scan tests the continuation bit decodeLength uses" % cq, bool(masks) and masks <= cont and bool(cont), where=where(D),
+               function=framer_q, construct="%s/continuation-mask" % framer_q, msg="the framer scans with mask %s, decodeLength continues on %s" % (sorted(masks), sorted(cont)))
+        depth = len(D.stack) + 1
+        inner_calls = [e for e in bp.walk() if e.kind == "CALL" and len(e.stack) == depth and e.stack[:len(D.stack)] == D.stack and e.a["recv"] == SELF]
+        ctx.ob("F7", "%s dispatcher hands the whole packet to at most one handler" % cq, len(inner_calls) <= 1 and all(x.a["args"] == (sl,) for x in inner_calls),
+               where=where(inner_calls[0]) if inner_calls else where(D), function=D.a["func"], construct="%s/handler-arg" % D.a["func"],
+               msg="handlers called with %s" % [[show(y) for y in x.a["args"]] for x in inner_calls])
+    # scan variable starts at 1 (AST): the inner while indexes carry[offset + v] and v = 1 precedes it in the same block
+    scan_ok = False
+    for x in ast.walk(framer.node):
+        body = getattr(x, "body", None)
+        if not isinstance(body, list):
+            continue
+        for i, st_ in enumerate(body):
+            if isinstance(st_, ast.While) and st_ is not outer.node:
+                names = {y.id for y in ast.walk(st_.test) if isinstance(y, ast.Name)} - {name}
+                for v in names:
+                    prev = [t for t in body[:i] if isinstance(t, ast.Assign) and len(t.targets) == 1 and isinstance(t.targets[0], ast.Name) and t.targets[0].id == v]
+                    if prev and isinstance(prev[-1].value, ast.Constant) and prev[-1].value.value == 1:
+                        scan_ok = True
+    ctx.ob("F3", "%s width scan starts at offset+1" % cq, scan_ok, where=w0, function=framer_q, construct="%s/scan-start" % framer_q,
+           msg="the scan of the remaining-length field does not start one byte after the packet's first byte")
+    return n
